@@ -195,8 +195,14 @@ class FakeFS:
         self.opened = []        # (path asked, Node) in call order
         self.statted = []
         self.cwd = cwd
+        self.cwd_gone = False   # the working directory of the process was removed: getcwd() fails (ENOENT)
         self.cwd_stack = self._walk([self.root], cwd)
         assert self.cwd_stack is not None and self.cwd_stack[-1].isdir, cwd
+
+    def getcwd(self):
+        if self.cwd_gone:
+            raise FileNotFoundError(2, "No such file or directory")
+        return self.cwd
 
     def _build(self, canon, spec):
         if isinstance(spec, dict):
@@ -300,7 +306,7 @@ class _PathNamespace:
 
 class _OsNamespace:
     def __init__(self, binding):
-        self.getcwd = lambda: binding.fs.cwd
+        self.getcwd = lambda: binding.fs.getcwd()
         self.access = lambda path, mode: binding.fs.access(path, mode)
         self.stat = lambda path: binding.fs.stat(path)
         self.lstat = self.stat
